@@ -329,8 +329,11 @@ def run(ctx):
     # ---- (a) primitives on the compiled code, with and without the memchr feature (engine K)
     kres = []
     if os.environ.get("VERIF_C03_SKIP_K") != "1":
-        hs = ["c03_skip_until_1_3_2", "c03_ends_3", "c03_skip_3"] + ([] if ctx.quick else ["c03_skip_until_1_4_2", "c03_skip_4"])
-        jobs = [{"harness": "c03::" + h, "variant": v, "timeout": 1500 if ctx.quick else 6000} for h in hs for v in ("default", "nomemchr")]
+        T = 1500 if ctx.quick else 6000
+        jobs = [{"harness": "c03::" + h, "variant": v, "timeout": T} for h in ["c03_ends_3", "c03_skip_3"] + ([] if ctx.quick else ["c03_skip_4"]) for v in ("default", "nomemchr")]
+        # one-needle skip_until: real memchr::memmem::find with a concrete needle; the plain loop with a symbolic needle
+        jobs += [{"harness": "c03::c03_skip_until_fixed_4" if ctx.quick else "c03::c03_skip_until_fixed_6", "variant": "default", "timeout": T},
+                 {"harness": "c03::c03_skip_until_1_3_2" if ctx.quick else "c03::c03_skip_until_1_4_2", "variant": "nomemchr", "timeout": T}]
         kres = kani.run_harnesses(ctx, jobs, parallel=6)
         kin = kani.settle(ctx, kres, {(j["harness"], j["variant"]): j for j in jobs})
         if kin and not ctx.violations: events += ["K: " + x for x in kin]
